@@ -6,6 +6,7 @@ mod diff;
 mod engine;
 mod families;
 mod ladder;
+mod menu;
 mod sweep;
 mod iana;
 mod props;
@@ -40,6 +41,7 @@ fn main() {
             let tier = args.get(3).map(|s| s.as_str()).unwrap_or("quick");
             match id {
                 "C01" => props::c01::run(tier),
+                "C02" => props::c02::run(tier),
                 "C03" => props::c03::run(tier),
                 "C04" => props::c04::run(tier),
                 "C05" => props::c05::run(tier),
